@@ -9,12 +9,13 @@ for name in "$@"; do
   d=/verif/seeded/$name
   rm -rf $W/demo; mkdir -p $W/demo
   if [ -d $d/demo ]; then cp -r $d/demo/. $W/demo/; else cp $d/*.go $d/go.mod $d/go.sum $W/demo/ 2>/dev/null; fi
-  sed -i "s#=> /tmp/mut-[A-Za-z0-9]*/repo#=> $W/repo#" $W/demo/go.mod
+  sed -i "s#=> /tmp/mut[-/][A-Za-z0-9]*/repo#=> $W/repo#" $W/demo/go.mod
   cp $W/repo/go.sum $W/demo/go.sum
-  (cd $W/demo && go test -count=1 ./... >/dev/null 2>&1); without=$?
+  TAGS=""; grep -q -- "-tags verif" $d/meta.json && TAGS="-tags verif"
+  (cd $W/demo && go test $TAGS -count=1 ./... >/dev/null 2>&1); without=$?
   (cd $W/repo && git apply $d/patch.diff) || { echo "$name: patch does not apply"; continue; }
   tests=$(cd $W/repo && go build ./... 2>&1 && go test -vet=off -count=1 ./... 2>&1 | grep -cE '^(FAIL|---)')
-  (cd $W/demo && go test -count=1 ./... >/dev/null 2>&1); with=$?
+  (cd $W/demo && go test $TAGS -count=1 ./... >/dev/null 2>&1); with=$?
   (cd $W/repo && git checkout -- .)
   echo "$name: demo without change rc=$without (want 0), with change rc=$with (want !=0), repo test failures with change=$tests (want 0)"
 done
